@@ -170,6 +170,9 @@ func genFrame(t *rapid.T, cd gen.Codecs, key bool, serial *uint32, b *sizeBudget
 		}
 	}
 	nslices := rapid.SampledFrom([]int{1, 1, 1, 2, 2, 3, 4}).Draw(t, "nslices")
+	if !key && len(nals) > 0 && rapid.IntRange(0, 19).Draw(t, "noSlices") == 0 {
+		return nals // a message holding only AUD / parameter sets / SEI
+	}
 	for i := 0; i < nslices; i++ {
 		add(sliceHdr(t, cd.Video, key), nalLen(t, b, cd.Video))
 		if i == 0 && nslices > 1 && rapid.IntRange(0, 7).Draw(t, "seiBetween") == 0 {
@@ -257,6 +260,10 @@ func genAudioLen(t *rapid.T, cd gen.Codecs, small bool) int {
 			// the frame is everything after the first byte, so alen 0 is a one-byte frame (a DTX packet: TOC only)
 			return rapid.IntRange(0, 3).Draw(t, "alenTinyOpus")
 		}
+		if cd.Audio == "aac" {
+			// alen 0 is an AAC raw message without data (encoders send them; it is not a frame and must not disturb anything)
+			return rapid.IntRange(0, 4).Draw(t, "alenTinyAac")
+		}
 		return rapid.IntRange(1, 4).Draw(t, "alenTiny")
 	case 1:
 		switch cd.Audio {
@@ -314,7 +321,7 @@ func genCase(t *rapid.T) Case {
 	vStep := rapid.SampledFrom([]uint32{40, 40, 33, 20, 100, 1, 0, 400}).Draw(t, "vStep")
 	// audio spacing decides how many AAC frames lal merges into one PES (flush when a frame is > 150 ms after the
 	// first one of the batch): 21..23 -> 8, 32 -> 5, 64 -> 3, 128 -> 2, >150 -> 1, 10 -> 16
-	aStep := rapid.SampledFrom([]uint32{21, 23, 23, 26, 32, 43, 64, 75, 128, 150, 151, 160, 200, 10, 5}).Draw(t, "aStep")
+	aStep := rapid.SampledFrom([]uint32{21, 23, 23, 26, 32, 43, 64, 75, 128, 150, 151, 160, 200, 10, 5, 0}).Draw(t, "aStep")
 	smallAudio := aStep < 20
 	vts, ats := start, start
 	if cd.Video != "" && cd.Audio != "" {
@@ -329,7 +336,11 @@ func genCase(t *rapid.T) Case {
 		if nAudio == 0 {
 			aFirst = ats
 		}
-		items = append(items, gen.Item{Kind: "audio", Ts: ats, ALen: genAudioLen(t, cd, smallAudio), ASeed: serial})
+		al := genAudioLen(t, cd, smallAudio)
+		if nAudio == 0 && al == 0 {
+			al = 1 // the first audio message is a real frame (it defines the track's first timestamp)
+		}
+		items = append(items, gen.Item{Kind: "audio", Ts: ats, ALen: al, ASeed: serial})
 		ats += aStep
 		nAudio++
 	}
@@ -362,6 +373,12 @@ func genCase(t *rapid.T) Case {
 		}
 	}
 
+	if cd.Video != "" && cd.Audio != "" && rapid.IntRange(0, 3).Draw(t, "audioFirst") == 0 {
+		n := rapid.IntRange(1, 3).Draw(t, "nAudioFirst")
+		for i := 0; i < n; i++ {
+			emitAudio()
+		}
+	}
 	if cd.Video == "" {
 		n := rapid.IntRange(1, 40).Draw(t, "nAudio")
 		for i := 0; i < n; i++ {
@@ -371,6 +388,20 @@ func genCase(t *rapid.T) Case {
 	} else {
 		ngops := rapid.IntRange(1, 4).Draw(t, "ngops")
 		for g := 0; g < ngops && nVideo < 36; g++ {
+			if g > 0 {
+				// sequence headers sent again (a changed video header only changes which parameter sets lal re-inserts)
+				switch rapid.IntRange(0, 7).Draw(t, "reHeader") {
+				case 0:
+					variant++
+					items = append(items, gen.Item{Kind: "vsh", Ts: vts, Variant: variant})
+				case 1:
+					if cd.Audio == "aac" {
+						items = append(items, gen.Item{Kind: "ash", Ts: ats})
+					}
+				case 2:
+					items = append(items, gen.Item{Kind: "meta", Ts: vts, Variant: variant, Sdf: true})
+				}
+			}
 			n := rapid.IntRange(1, 8).Draw(t, "gopLen")
 			for f := 0; f < n; f++ {
 				key := f == 0
@@ -606,6 +637,12 @@ func classify(c Case) (bool, []string) {
 			prevA = int64(it.Ts)
 		}
 	}
+	present := map[string]bool{}
+	for _, it := range c.Items {
+		for _, n := range it.Nals {
+			present[sizeClass(len(n.Hdr)+n.Len)] = true
+		}
+	}
 	pair := codecPair(cd)
 	sc := sizeClass(maxNal)
 	if cd.Video == "" {
@@ -618,6 +655,11 @@ func classify(c Case) (bool, []string) {
 	for _, k := range c.Cons {
 		jc := joinClass(c, k.JoinAt)
 		labels = append(labels, fmt.Sprintf("%s|%s|%s|%s", pair, k.Kind, jc, sc), "consumer:"+k.Kind, "join:"+k.Kind+":"+jc)
+	}
+	for _, k := range []string{"1-5B", "<=184B", "<=1200B", "<=64KiB", ">64KiB"} {
+		if present[k] {
+			labels = append(labels, "has-nal:"+k)
+		}
 	}
 	if multi {
 		labels = append(labels, "multi-nal-frame")
